@@ -272,6 +272,9 @@ fn damage_sweep(rep: &'static Report, alice: &Party, bob: &Party) {
         ("small16".into(), plaintext(seed ^ 0xe1, 16), vec![16]),
         ("three-chunks".into(), plaintext(seed ^ 0xe3, 2 * CS + 77), vec![CS, CS, 77]),
         ("short-chunks".into(), plaintext(seed ^ 0xe5, 2000 + 3000 + 1 + 4000 + 77), vec![2000, 3000, 1, 4000, 77]),
+        // authenticated chunks that consist of zero bytes only (a writer that skips or defers zero blocks shows here)
+        ("zero-middle-chunk".into(), { let mut z = plaintext(seed ^ 0xe6, 2 * CS + 77); z[CS..2 * CS].iter_mut().for_each(|b| *b = 0); z }, vec![CS, CS, 77]),
+        ("all-zero".into(), vec![0u8; 2 * CS + 77], vec![CS, CS, 77]),
     ];
     if rep.tier == Tier::Thorough {
         plains.push(("one-chunk-1000".into(), plaintext(seed ^ 0xe2, 1000), vec![1000]));
